@@ -160,10 +160,16 @@ def run_driver(domain, lines, timeout=3000):
 
 
 def load_known_findings(prop):
-    path = os.path.join(VERIF, "known_findings.json")
-    if not os.path.exists(path):
-        return []
-    return [e for e in json.load(open(path)) if e.get("property") == prop]
+    """known_findings.json plus known_findings.d/*.json (committed; never written at run time)"""
+    paths = [os.path.join(VERIF, "known_findings.json")]
+    d = os.path.join(VERIF, "known_findings.d")
+    if os.path.isdir(d):
+        paths += [os.path.join(d, f) for f in sorted(os.listdir(d)) if f.endswith(".json")]
+    out = []
+    for path in paths:
+        if os.path.exists(path):
+            out += [e for e in json.load(open(path)) if e.get("property") == prop]
+    return out
 
 
 def canon(obj):
